@@ -247,7 +247,11 @@ let () = register "c05.laid" (fun line ->
     let rs = List.map (fun (name, bs) ->
         oracle_used := false;
         match parse_bytes gbk_oracle classify_tok bs with
-        | Ok (PR (blk, [], [])) -> if laid_b (z_of_int 100000) blk then "laid" else "NOT-LAID"
+        | Ok (PR (blk, [], [])) ->
+          (* the guards of the positive theorems (Properties/C05.v, C14.v): fragment, Laid2 layout, no re-pointing *)
+          String.concat "+" [ (if in_fragment blk then "frag" else "NOFRAG"); (if laid_b (z_of_int 100000) blk then "laid" else "NOT-LAID");
+                              (if laid2_b (z_of_int 100000) blk then "laid2" else "NOT-LAID2");
+                              (if no_repoint blk then "norepoint" else "REPOINT") ]
         | _ -> "noparse") c.files in
     String.concat "," rs ^ "\t-\t-")
 
